@@ -219,7 +219,7 @@ func main() {
 	compAlpha := []string{"a", "b", "c", "x", "x.y", "x.json", "xfoo", ".json", "x.", ".y", "x.y.z", "x%2Ey", "x.y.json", "xa.b", "%2F.%2F", "é.json"}
 	small := []string{"/", "/a", "/a/{p}", "/{p}", "/{p}/b", "/a/", "/a/{p}.{q}", "/a/b"}
 	fullAlpha := []string{"a", "b", "c", "x", ":", ":x", "*", "=", ";v=1", "%2F", "%25", "a%2Fb", "%3A", "é", ".", "..", "",
-		"x.y", ".y", "%2E%2E", "%2e", "+", "a+b", "%20", "%23", "#", "a=b", "A"}
+		"x.y", ".y", "%2E%2E", "%2e", "+", "a+b", "%20", "%23", "#", "a=b", "A", "%252F"}
 	longAlpha := []string{"a", "b", "c", "x", ":", "%2F", "..", "", "x.y", "é", "%25", "*", "=", ";v=1", "."}
 	specials := []reqT{{"OPTIONS", "*"}, {"GET", "http://verif.test"}, {"GET", "http://verif.test/a"}, {"GET", "http://verif.test/a/x%2Fy?q=/b"},
 		{"GET", "/a?x=/b"}, {"GET", "/a/x?"}, {"GET", "/?/a"}, {"POST", "/a/b?/c"}}
@@ -228,7 +228,7 @@ func main() {
 	var sweeps []sweep
 	if r.Thorough() {
 		famA := family{long: longAlpha[:12], longLen: 3, full: fullAlpha, fullLen: 2, methods: []string{"GET", "POST", "get", "HEAD"},
-			mAlpha: []string{"a", "b", "x", "x.y", "c"}, mLen: 3, suffixes: []string{"", "/", "//", "/.", "?q=/a"}, wrongLen: 2, specials: specials, longMeths: []string{"GET"}}
+			mAlpha: []string{"a", "b", "c", "x", "x.y", "%2F"}, mLen: 2, suffixes: []string{"", "/", "//", "/.", "?q=/a"}, wrongLen: 2, specials: specials, longMeths: []string{"GET"}}
 		famB := family{long: []string{"a", "b", "x", ":", "x.y"}, longLen: 2, full: fullAlpha, fullLen: 1, methods: allMethods,
 			mAlpha: []string{"a", "b", "x", "x.y", "%2F", ""}, mLen: 2, suffixes: []string{"", "/", "//"}, wrongLen: 1, specials: specials, longMeths: []string{"GET", "POST"}}
 		sweeps = []sweep{
@@ -250,10 +250,10 @@ func main() {
 		famB := family{long: []string{"a", "b", "x", ":", "x.y"}, longLen: 2, full: fullAlpha, fullLen: 1, methods: allMethods,
 			mAlpha: []string{"a", "b", "x", "x.y"}, mLen: 2, suffixes: []string{"", "/"}, wrongLen: 1, specials: specials, longMeths: []string{"GET", "POST"}}
 		sweeps = []sweep{
-			{"shapes", "routes", descsFromSets(universe, 1, 2, bases("", "/api", "/v1/api/"),
+			{"shapes", "routes", descsFromSets(universe, 1, 2, bases("", "/v1/api/"),
 				assignments([][]string{{"GET"}})), famA},
 			{"methods", "api", descsFromSets([]string{"/", "/a", "/a/{p}", "/{p}", "/a/"}, 1, 2, bases("/api"),
-				assignments(nonEmptySubsets([]string{"GET", "POST", "DELETE"}))), famB},
+				assignments([][]string{{"GET"}, {"POST"}, {"GET", "POST"}, {"DELETE", "GET"}})), famB},
 			{"partial-segment-placeholders", "routes", descsFromSets(compU, 1, 2, bases("", "/api"), assignments([][]string{{"GET"}})),
 				family{long: compAlpha, longLen: 2, full: compAlpha, fullLen: 1, methods: []string{"GET", "POST", "get", "HEAD"},
 					mAlpha: compAlpha[:8], mLen: 2, suffixes: []string{"", "/"}, wrongLen: 1, longMeths: []string{"GET"}}},
@@ -296,7 +296,7 @@ func main() {
 		}
 		r.Set("sweep_"+sw.name, map[string]any{"descriptions": len(sw.descs), "requests_per_description_max": nreq, "entry_point": sw.via})
 		n := len(sw.descs)
-		stride := n/3 + 1
+		stride := n/2 + 1
 		sweepSamples := map[int][]any{}
 		rot := int(r.Seed%int64(n)+int64(n)) % n
 		enum.Parallel(n, stop, func(k int) {
@@ -306,12 +306,13 @@ func main() {
 				r.Fail("description-rejected", err.Error(), Case{Desc: d, Via: sw.via, Method: "GET", Target: "/"})
 				return
 			}
+			w := newWire()
 			var evals, nontrivial int64
 			sampled := false
 			var samples []any
 			out := map[string]int64{}
 			for qi, q := range reqCache[d.Base] {
-				req, err := parse(rawRequest(q.method, q.target))
+				req, err := w.parse(rawRequest(q.method, q.target))
 				if err != nil {
 					continue
 				}
